@@ -8,7 +8,11 @@ Model:     lean/ForML/Model/{Fs,Registry}.lean via drv_c05.
 (b) crash correspondence: every step of every history is re-run from a snapshot of the tree before it and aborted
     (BaseException) after k completed micro-operations resp. half-way through a write; a fresh
     asset.Directory(posix.Registry(root)) with cleared caches lists and reads everything; that view is compared
-    with the model's reader on the crashed model tree;
+    with the model's reader on the crashed model tree, and the raw directory tree (every path, every byte, leftovers
+    included) with the model's raw tree — so a file-system effect that escapes the recorder shows up;
+(c) crash-recovery histories: a history item ['crash', step, k, cut] kills the step on the live tree and the history
+    goes on (a new process retries / does something else) on whatever is on disk;
+(d) a long-lived reader (process-wide TAGS / STATES caches never cleared) must read what a fresh reader reads;
 oracle (independent of the model, on the real views only): append-only / gap-free / monotonic between consecutive
     views, crashed view = previous or complete new view and nothing listed is unreadable.
 """
@@ -46,7 +50,7 @@ class Crash(BaseException):
 # ---------------------------------------------------------------------------------------------------------------
 class Recorder:
     """Wraps os.mkdir / os.rename / os.replace / os.unlink / os.remove / os.rmdir / io.open / builtins.open /
-    shutil.copyfile for paths below `root`; records every *successful* mutating micro-operation; dies after
+    shutil.copyfile / shutil.rmtree for paths below `root`; records every *successful* mutating micro-operation; dies after
     `crash_at` completed ones (inside the next write with `cut` when that is given)."""
 
     def __init__(self, root: str, crash_at=None, cut: bool = False):
@@ -158,10 +162,27 @@ class Recorder:
         self._record(('append', self._rel(dst), bytes(data)))
         return dst
 
+    def _rmtree(self, path, *a, **k):
+        """One micro-operation (its unlink / rmdir sequence is not split), and only when there is a directory to remove."""
+        if self._nested or not self._mine(path) or os.path.islink(path) or not os.path.isdir(path):
+            self._nested += 1
+            try:
+                return self._saved['rmtree'](path, *a, **k)
+            finally:
+                self._nested -= 1
+        self._gate()
+        self._nested += 1
+        try:
+            r = self._saved['rmtree'](path, *a, **k)
+        finally:
+            self._nested -= 1
+        self._record(('rmtree', self._rel(path)))
+        return r
+
     def __enter__(self):
         self._saved = {'mkdir': os.mkdir, 'rename': os.rename, 'replace': os.replace, 'unlink': os.unlink,
                        'remove': os.remove, 'rmdir': os.rmdir, 'open': io.open, 'bopen': builtins.open,
-                       'copyfile': shutil.copyfile}
+                       'copyfile': shutil.copyfile, 'rmtree': shutil.rmtree}
         os.mkdir = self._mkdir
         os.rename = self._rename
         os.replace = lambda s, d, *a, **k: self._rename(s, d, *a, **k)
@@ -171,6 +192,7 @@ class Recorder:
         io.open = self._open
         builtins.open = self._open
         shutil.copyfile = self._copyfile
+        shutil.rmtree = self._rmtree
         return self
 
     def __exit__(self, *exc):
@@ -183,6 +205,7 @@ class Recorder:
         io.open = self._saved['open']
         builtins.open = self._saved['bopen']
         shutil.copyfile = self._saved['copyfile']
+        shutil.rmtree = self._saved['rmtree']
         return False
 
 
@@ -307,55 +330,81 @@ def _canon_path(parts: tuple) -> list:
     return out
 
 
-def _canon_calls(calls) -> list:
-    """[(method, ops)] -> [[op, ...], ...] with canonical paths; a temporary sibling that is later renamed onto the
-    package / the tag is called pkgtmp / tagtmp whatever its real name is."""
-    from forml.io import asset
+_ALIAS: dict = {}  # (depth, file name) -> 'pkgtmp' | 'tagtmp': learnt from the renames of the tree under test
 
-    alias = {}
+
+def _learn_alias(calls) -> None:
+    """A temporary sibling that is renamed onto the package / the tag is called pkgtmp / tagtmp whatever its real name."""
     for _, ops in calls:
         for op in ops:
             if op[0] == 'rename':
                 src, dst = _canon_path(op[1]), _canon_path(op[2])
                 if src and isinstance(src[-1], list) and src[-1][0] == 'other' and dst and dst[-1] in ('pkg', 'tag'):
-                    alias[(len(src) - 1, src[-1][1])] = dst[-1] + 'tmp'
+                    _ALIAS[(len(src) - 1, src[-1][1])] = dst[-1] + 'tmp'
 
-    def canon(parts):
-        path = _canon_path(parts)
-        for i, seg in enumerate(path):
-            if isinstance(seg, list) and seg[0] == 'other' and (i, seg[1]) in alias:
-                path[i] = alias[(i, seg[1])]
-        return path
 
+def _canon(parts) -> list:
+    path = _canon_path(parts)
+    for i, seg in enumerate(path):
+        if isinstance(seg, list) and seg[0] == 'other' and (i, seg[1]) in _ALIAS:
+            path[i] = _ALIAS[(i, seg[1])]
+            if i + 1 < len(path) and isinstance(path[i + 1], list) and path[i + 1][0] == 'other' \
+                    and path[i + 1][1] in MEMBERS:
+                path[i + 1] = ['member', MEMBERS.index(path[i + 1][1])]
+    return path
+
+
+def _tag_payload(blob: bytes):
+    from forml.io import asset
+
+    try:
+        tag = asset.Tag.loads(blob)
+        return ['tag', tag.training.ordinal, [s.int for s in tag.states]]
+    except Exception:  # pylint: disable=broad-except
+        return ['tag', 'unparsable']
+
+
+def _canon_calls(calls) -> list:
+    """[(method, ops)] -> [[op, ...], ...] with canonical paths."""
+    _learn_alias(calls)
     out = []
     for _, ops in calls:
         lst = []
         for op in ops:
             if op[0] == 'append':
-                path = canon(op[1])
-                if path[-1] in ('tag', 'tagtmp'):
-                    try:
-                        tag = asset.Tag.loads(op[2])
-                        payload = ['tag', tag.training.ordinal, [s.int for s in tag.states]]
-                    except Exception:  # pylint: disable=broad-except
-                        payload = ['tag', 'unparsable']
-                else:
-                    payload = list(op[2])
+                path = _canon(op[1])
+                payload = _tag_payload(op[2]) if path[-1] in ('tag', 'tagtmp') else list(op[2])
                 lst.append(['append', path, payload])
             elif op[0] == 'rename':
-                lst.append(['rename', canon(op[1]), canon(op[2])])
+                lst.append(['rename', _canon(op[1]), _canon(op[2])])
             else:
-                lst.append([op[0], canon(op[1])])
+                lst.append([op[0], _canon(op[1])])
         out.append(lst)
     return out
 
 
-def _do_step(root: str, step: list, sid0: int, crash_at=None, cut=False):
+def _read_tree(root: str) -> list:
+    """The raw tree: every path below the registry root with its node ('dir' | ['file', bytes] | decoded tag)."""
+    out = []
+    for dirpath, dirnames, filenames in os.walk(root):
+        rel = pathlib.PurePath(os.path.relpath(dirpath, root)).parts if dirpath != root else ()
+        for name in dirnames:
+            out.append([_canon(rel + (name,)), 'dir'])
+        for name in filenames:
+            path = _canon(rel + (name,))
+            with open(os.path.join(dirpath, name), 'rb') as f:
+                blob = f.read()
+            out.append([path, _tag_payload(blob) if path[-1] in ('tag', 'tagtmp') else ['file', list(blob)]])
+    return sorted(out, key=repr)
+
+
+def _do_step(root: str, step: list, sid0: int, crash_at=None, cut=False, clear=True):
     """One history step on the real code in the tree `root`. Returns (outcome, calls, next sid, crashed?)."""
     from forml.io import asset
     from forml.provider.registry.filesystem import posix
 
-    _clear_caches()
+    if clear:
+        _clear_caches()
     registry = posix.Registry(root)
     directory = asset.Directory(registry)
     rec = Recorder(root, crash_at, cut)
@@ -402,22 +451,35 @@ def _do_step(root: str, step: list, sid0: int, crash_at=None, cut=False):
     return outcome, rec.calls, uuids.next, crashed
 
 
-def _read_view(root: str) -> list:
-    """What a fresh reader sees: sorted facts
-    ['rel', p, v, node, pull-status] ['member', p, v, i, node] ['gen', p, v, g, tag] ['state', p, v, g, sid, node]."""
+def _read_view(root: str, clear: bool = True) -> list:
+    """What a fresh reader (`clear`: process-wide caches emptied first) sees: sorted facts
+    ['rel', p, v, node, pull-status] ['member', p, v, i, node] ['gen', p, v, g, tag] ['state', p, v, g, sid, node]
+    and what the implicit keys resolve to: ['latest-rel', p, v] ['latest-gen', p, v, g | None]."""
     from forml.io import asset
     from forml.provider.registry.filesystem import posix
 
-    _clear_caches()
+    if clear:
+        _clear_caches()
     registry = posix.Registry(root)
     directory = asset.Directory(registry)
     facts = []
     for pkey in directory.list():
         project = directory.get(pkey)
         p = NAMES.index(pkey) if pkey in NAMES else str(pkey)
+        try:
+            lkey = str(project.get(None).key)
+            facts.append(['latest-rel', p, VERSIONS.index(lkey) if lkey in VERSIONS else lkey])
+        except Exception as exc:  # pylint: disable=broad-except
+            facts.append(['latest-rel', p, 'error:' + type(exc).__name__])
         for rkey in project.list():
             release = project.get(rkey)
             v = VERSIONS.index(str(rkey)) if str(rkey) in VERSIONS else str(rkey)
+            try:
+                facts.append(['latest-gen', p, v, int(release.get(None).key)])
+            except asset.Level.Listing.Empty:
+                facts.append(['latest-gen', p, v, None])
+            except Exception as exc:  # pylint: disable=broad-except
+                facts.append(['latest-gen', p, v, 'error:' + type(exc).__name__])
             try:
                 package = registry.pull(pkey, rkey)
                 status = 'ok' if (package.manifest.name == pkey and str(package.manifest.version) == str(rkey)) \
@@ -461,24 +523,60 @@ def _atoms(calls) -> list:
     return [op for _, ops in calls for op in ops]
 
 
+def _model_cut(canon_calls, k: int):
+    flat = [op for call in canon_calls for op in call]
+    path, payload = flat[k][1], flat[k][2]
+    return 1 if path[-1] in ('tag', 'tagtmp') else len(payload) // 2
+
+
 def run_history(history: list, crash_points: bool = True, only=None) -> dict:
-    """Base run (trace + view after every step) and, from the snapshot before each step, every crash point of it.
-    `only` = (i, k, cut) restricts to one crash point (replay)."""
+    """Base run (trace + view + raw tree after every event) and, from the snapshot before each plain step, every
+    crash point of it.  A history item is a step or ['crash', step, where, cut]: the step is killed on the live tree
+    (`where`: a float in [0, 1) = fraction of the step's micro-operations, or an int = their number) and the history
+    goes on.  `only` = (i, k, cut) restricts the crash points to one (replay)."""
     root = _fresh_root()
     os.makedirs(os.path.join(root, 'live'))
     live = os.path.join(root, 'live')
-    views = [_read_view(live)]
-    outcomes, traces, crashes, sid_start = [], [], [], []
+    views, trees = [_read_view(live)], [_read_tree(live)]
+    outcomes, traces, crashes, sid_start, events, killed = [], [], [], [], [], []
     sid = 0
-    for i, step in enumerate(history):
+    for i, item in enumerate(history):
         snap = os.path.join(root, f'snap{i}')
         shutil.copytree(live, snap)
+        if item[0] == 'crash':
+            _, step, where, cut = item
+            scratch = os.path.join(root, f'base{i}')
+            shutil.copytree(snap, scratch)
+            _, bcalls, _, _ = _do_step(scratch, step, sid)
+            complete = _read_view(scratch)
+            shutil.rmtree(scratch, ignore_errors=True)
+            atoms = _atoms(bcalls)
+            if not atoms:  # the step performs no micro-operation (refused by a guard): nothing to interrupt
+                item = step
+            else:
+                k = min(int(where * len(atoms)), len(atoms) - 1) if isinstance(where, float) else min(where, len(atoms))
+                cut = bool(cut) and k < len(atoms) and atoms[k][0] == 'append' and len(atoms[k][2]) >= 2
+                mcut = _model_cut(_canon_calls(bcalls), k) if cut else None
+                _, ccalls, nsid, crashed = _do_step(live, step, sid, crash_at=k, cut=cut)
+                outcomes.append('crashed')
+                traces.append(None)
+                sid_start.append(sid)
+                events.append(['crash', step, k, cut, mcut])
+                views.append(_read_view(live))
+                trees.append(_read_tree(live))
+                killed.append({'i': i, 'k': k, 'cut': cut, 'crashed': crashed or k >= len(atoms),
+                               'completed': len(_atoms(ccalls)), 'complete_view': complete})
+                sid = nsid
+                continue
+        step = item
         outcome, calls, nsid, _ = _do_step(live, step, sid)
         outcomes.append(outcome)
         sid_start.append(sid)
+        events.append(step)
         canon = _canon_calls(calls)
         traces.append(canon)
         views.append(_read_view(live))
+        trees.append(_read_tree(live))
         atoms = _atoms(calls)
         points = []
         if crash_points:
@@ -492,25 +590,39 @@ def run_history(history: list, crash_points: bool = True, only=None) -> dict:
             scratch = os.path.join(root, f'crash{i}-{k}-{int(cut)}')
             shutil.copytree(snap, scratch)
             _, ccalls, _, crashed = _do_step(scratch, step, sid, crash_at=k, cut=cut)
-            catoms = _atoms(ccalls)
-            cutlen = None
-            if cut:
-                flat = [op for call in canon for op in call]
-                path, payload = flat[k][1], flat[k][2]
-                cutlen = 1 if path[-1] in ('tag', 'tagtmp') else len(payload) // 2
-            crashes.append({'i': i, 'k': k, 'cut': cut, 'model_cut': cutlen, 'crashed': crashed,
-                            'completed': len(catoms), 'view': _read_view(scratch)})
+            crashes.append({'i': i, 'k': k, 'cut': cut, 'model_cut': _model_cut(canon, k) if cut else None,
+                            'crashed': crashed, 'completed': len(_atoms(ccalls)), 'view': _read_view(scratch),
+                            'tree': _read_tree(scratch)})
             shutil.rmtree(scratch, ignore_errors=True)
         sid = nsid
     shutil.rmtree(root, ignore_errors=True)
-    return {'history': history, 'outcomes': outcomes, 'traces': traces, 'views': views, 'crashes': crashes,
-            'sid_start': sid_start}
+    return {'history': history, 'events': events, 'outcomes': outcomes, 'traces': traces, 'views': views, 'trees': trees,
+            'crashes': crashes, 'killed': killed, 'sid_start': sid_start}
+
+
+def run_long_lived(history: list) -> list:
+    """The same history in ONE long-lived process: the process-wide TAGS / STATES / ARTIFACTS caches are never cleared
+    between the steps and the reads. Returns the view after every event."""
+    root = _fresh_root()
+    _clear_caches()
+    views = [_read_view(root, clear=False)]
+    sid = 0
+    for item in history:
+        if item[0] == 'crash':
+            continue  # a dead process takes its caches along
+        _, _, sid, _ = _do_step(root, item, sid, clear=False)
+        views.append(_read_view(root, clear=False))
+    shutil.rmtree(root, ignore_errors=True)
+    return views
 
 
 def _worker(args):
     history, crash_points = args
     try:
-        return run_history(history, crash_points)
+        r = run_history(history, crash_points)
+        if crash_points == 'long-lived':
+            r['long_lived'] = run_long_lived(history)
+        return r
     except Exception as exc:  # pylint: disable=broad-except
         import traceback
 
@@ -547,12 +659,24 @@ def corrupt_items(view) -> list:
         if f[0] == 'state' and not isinstance(f[5], list):
             out.append((f'listed generation {f[1]}/{f[2]}/{f[3]} misses state {f[4]} ({f[5]})',
                         'listed-generation-missing-state'))
+        if f[0] == 'latest-rel':
+            vs = [g[2] for g in view if g[0] == 'rel' and g[1] == f[1] and isinstance(g[2], int)]
+            if vs and f[2] != max(vs):
+                out.append((f'implicit release of project {f[1]} resolves to {f[2]}, the highest listed one is {max(vs)}',
+                            'latest-release-not-highest'))
+        if f[0] == 'latest-gen':
+            gs = [g[3] for g in view if g[0] == 'gen' and g[1:3] == f[1:3]]
+            if f[3] != (max(gs) if gs else None):
+                out.append((f'implicit generation of {f[1]}/{f[2]} resolves to {f[3]}, listed are {sorted(gs)}',
+                            'latest-generation-not-highest'))
     return out
 
 
 def oracle_step(step, outcome, before, after) -> list:
     """Append-only / gap-free / monotonic between the views around one completed step. [(what, signature)]."""
     out = list(corrupt_items(after))
+    before = [f for f in before if not f[0].startswith('latest')]
+    after = [f for f in after if not f[0].startswith('latest')]
     missing = [f for f in before if f not in after]
     if missing:
         out.append((f'{missing[0][:4]} was visible before the step and is changed or gone after it', 'not-append-only'))
@@ -611,7 +735,8 @@ def oracle_crash(before, after, crashed_view) -> list:
 
 
 def _strip(view):
-    return [f[:4] if f[0] == 'rel' else f for f in view]
+    """the part of a real view that the model's reader enumerates"""
+    return [f[:4] if f[0] == 'rel' else f for f in view if not f[0].startswith('latest')]
 
 
 # ---------------------------------------------------------------------------------------------------------------
@@ -686,6 +811,39 @@ class C05(fw.Check):
                 hist.append(['train', proj, vidx, len(hist) + 1, states])
         return hist
 
+    def _random_recovery_history(self):
+        """a random history in which some steps are first killed at a random micro-operation (possibly inside a write)
+        and then — mostly — retried by a new process"""
+        rng = self.rng
+        out, ncrash = [], 0
+        for step in self._random_history():
+            if ncrash < 3 and rng.random() < 0.4:
+                out.append(['crash', step, rng.random(), rng.random() < 0.3])
+                ncrash += 1
+                if rng.random() < 0.25:
+                    continue  # never retried
+            out.append(step)
+        if ncrash == 0:
+            out.insert(len(out) - 1, ['crash', out[-1], rng.random(), False])
+        return out
+
+    def _recovery_corpus(self):
+        s1, s2 = [[1, 2, 3]], [[4], [5, 6]]
+        pf, pd = ['publish', 0, 0, 1, 'file'], ['publish', 0, 0, 1, 'dir']
+        return [
+            # a directory publish killed while copying, retried (rmtree of the leftover), then as a file package
+            [['crash', pd, 4, False], pd, ['train', 0, 1, 1, s1]],
+            [['crash', pd, 5, True], ['publish', 0, 0, 1, 'file']],
+            # a file publish killed inside the write; the leftover temporary *file* makes a directory retry fail
+            [['crash', pf, 3, True], pd, pf, ['train', 0, 1, 1, s2]],
+            # a training killed after one of two states was moved / after the tag was staged; the number is reused
+            [pf, ['train', 0, 1, 1, s1], ['crash', ['train', 0, 1, 2, s2], 6, False], ['train', 0, 1, 3, s2], ['train', 0, 1, 4, s1]],
+            [pf, ['crash', ['train', 0, 1, 1, s2], 9, True], ['crash', ['train', 0, 1, 2, s2], 2, False], ['train', 0, 1, 3, s1]],
+            # killed right before the last rename of a commit / of a publish
+            [pf, ['crash', ['train', 0, 1, 1, s1], 6, False], ['train', 0, 1, 2, []], ['train', 0, 1, 3, s1]],
+            [['crash', pf, 4, False], ['publish', 0, 0, 2, 'file'], pf],
+        ]
+
     def _exhaustive(self, maxlen: int):
         alphabet = [['publish', p, p, v, 'file'] for p in (0, 1) for v in (1, 2)] + \
                    [['train', p, v, 0, [[7, 8]]] for p in (0, 1) for v in (1, 2)]
@@ -695,15 +853,31 @@ class C05(fw.Check):
 
     # ---- model side --------------------------------------------------------------------------------------------
     @staticmethod
-    def _model_steps(history, sid_start):
+    def _model_events(events, sid_start):
         """state ids: the real code draws uuid4 (here: a counter) per dump it reaches; the model is given the same ids"""
-        steps = []
-        for s, sid in zip(history, sid_start):
+        def one(s, sid):
             if s[0] == 'publish':
-                steps.append(['publish', s[1], s[2], s[3], _package(NAMES[s[2]], s[3], s[4])[1]])
+                return ['publish', s[1], s[2], s[3], _package(NAMES[s[2]], s[3], s[4])[1]]
+            return ['train', s[1], s[2], s[3], [[sid + j, list(b)] for j, b in enumerate(s[4])]]
+
+        out = []
+        for ev, sid in zip(events, sid_start):
+            if ev[0] == 'crash':
+                out.append(['crash', one(ev[1], sid), ev[2], 'none' if not ev[3] else ev[4]])
             else:
-                steps.append(['train', s[1], s[2], s[3], [[sid + j, list(b)] for j, b in enumerate(s[4])]])
-        return steps
+                out.append(one(ev, sid))
+        return out
+
+    @staticmethod
+    def _model_tree(entries):
+        """model raw tree -> same canonical form as _read_tree (tag bytes of the abstract code decoded)"""
+        out = []
+        for path, node in entries:
+            if path[-1] in ('tag', 'tagtmp') and node != 'dir':
+                b = node[1]
+                node = ['tag', b[1], b[2:]] if len(b) >= 2 and b[0] == len(b) - 1 else ['tag', 'unparsable']
+            out.append([path, node])
+        return sorted(out, key=repr)
 
     @staticmethod
     def _model_calls(outcome):
@@ -734,14 +908,17 @@ class C05(fw.Check):
         return staged, key_first
 
     def _compare(self, results, impl):
-        """model vs real for a batch of base-run results (+ oracle on the real views)."""
+        """model vs real for a batch of base-run results."""
         lines, index = [], []
         tag = sexp.dumps(['impl', bool(impl[0]), bool(impl[1])])
         for r in results:
-            steps = self._model_steps(r['history'], r['sid_start'])
-            enc = sexp.dumps(steps)
+            evs = self._model_events(r['events'], r['sid_start'])
+            enc = sexp.dumps(evs)
             lines.append(f'(run {tag} {enc} none)')
             index.append((r, 'full', None))
+            for kd in r['killed']:  # the tree right after a process death inside the history
+                lines.append(f'(run {tag} {sexp.dumps(evs[:kd["i"] + 1])} none)')
+                index.append((r, 'killed', kd))
             for c in r['crashes']:
                 cut = 'none' if not c['cut'] else str(c['model_cut'])
                 lines.append(f'(run {tag} {enc} ({c["i"]} {c["k"]} {cut}))')
@@ -749,56 +926,89 @@ class C05(fw.Check):
         answers = self.model(lines)
         for (r, kind, c), ans in zip(index, answers):
             m = sexp.num(sexp.loads(ans))
-            hist = r['history']
+            hist = r['events']
             if m == 'bad-op' or m[0] != 'ok':
                 self.diverge('model rejected the request', {'history': hist}, None, m)
                 continue
             mview = sorted(m[2], key=repr)
+            mtree = self._model_tree(m[4])
+            where = {'history': hist, 'crash': c and [c['i'], c['k'], c['cut']]}
             if m[3] != 'true':
-                self.diverge('model tree is not well formed (Fs.WF)', {'history': hist, 'crash': c and [c['i'], c['k'], c['cut']]},
-                             None, m[3])
+                self.diverge('model tree is not well formed (Fs.WF)', where, None, m[3])
             if kind == 'full':
                 for i, (mo, outcome, trace) in enumerate(zip(m[1], r['outcomes'], r['traces'])):
+                    if outcome == 'crashed' or mo == 'crashed':
+                        if outcome != mo:
+                            self.diverge('event kind', {'history': hist, 'step': i}, outcome, mo)
+                        continue
                     mkind, mcalls = self._model_calls(mo)
                     if mkind != outcome:
                         self.diverge('step outcome', {'history': hist, 'step': i}, outcome, mkind)
                     elif mcalls != trace:
                         self.diverge('micro-operation trace', {'history': hist, 'step': i}, trace, mcalls)
-                if mview != sorted(_strip(r['views'][-1]), key=repr):
-                    self.diverge('reader view after the history', {'history': hist}, _strip(r['views'][-1]), mview)
+                rview, rtree, what = r['views'][-1], r['trees'][-1], 'after the history'
+            elif kind == 'killed':
+                rview, rtree, what = r['views'][c['i'] + 1], r['trees'][c['i'] + 1], 'after a process death inside the history'
             else:
-                if mview != sorted(_strip(c['view']), key=repr):
-                    self.diverge('reader view after a crash', {'history': hist, 'crash': [c['i'], c['k'], c['cut']]},
-                                 _strip(c['view']), mview)
+                rview, rtree, what = c['view'], c['tree'], 'after a crash'
+            if mview != sorted(_strip(rview), key=repr):
+                self.diverge('reader view ' + what, where, _strip(rview), mview)
+            elif mtree != rtree:
+                diff = [e for e in rtree if e not in mtree][:3] + [e for e in mtree if e not in rtree][:3]
+                self.diverge('raw directory tree ' + what, where, diff, None)
 
     def _judge(self, r):
         """oracle on one base-run result; accounts the cases."""
-        hist = r['history']
-        for i, step in enumerate(hist):
+        hist = r['events']
+        killed = {kd['i']: kd for kd in r['killed']}
+        for i, ev in enumerate(hist):
             before, after = r['views'][i], r['views'][i + 1]
+            wit = [e[:4] if e[0] == 'crash' else e for e in hist[: i + 1]]
+            if ev[0] == 'crash':
+                kd = killed[i]
+                self.case(('killed', repr(wit)), f'process death inside the history ({ev[1][0]}), history goes on', nontrivial=True,
+                          sample={'history': wit})
+                if not kd['crashed']:
+                    self.diverge('crash point not reached', {'history': wit}, kd['completed'], None)
+                for what, sig in oracle_crash(before, kd['complete_view'], after):
+                    self.violate(f'process death in {ev[1][0]} after {ev[2]} micro-operations'
+                                 + (' (half-way through the write)' if ev[3] else '') + f': {what}',
+                                 {'history': wit, 'crash': None}, sig)
+                continue
+            step = ev
             natoms = sum(len(c) for c in r['traces'][i])
             shape = f'{step[0]}' + (f'-{step[4]}' if step[0] == 'publish' else f'-{len(step[4])}st') + f' -> {r["outcomes"][i]}'
-            self.case(('step', repr(hist[: i + 1])), shape, nontrivial=natoms > 0,
-                      sample={'history': hist[: i + 1], 'outcome': r['outcomes'][i], 'micro_ops': natoms})
+            self.case(('step', repr(wit)), shape, nontrivial=natoms > 0,
+                      sample={'history': wit, 'outcome': r['outcomes'][i], 'micro_ops': natoms})
             for what, sig in oracle_step(step, r['outcomes'][i], before, after):
-                self.violate(what, {'history': hist[: i + 1], 'crash': None}, sig)
+                self.violate(what, {'history': wit, 'crash': None}, sig)
         for c in r['crashes']:
             i = c['i']
-            self.case(('crash', repr(hist[: i + 1]), c['k'], c['cut']),
+            wit = [e[:4] if e[0] == 'crash' else e for e in hist[: i + 1]]
+            self.case(('crash', repr(wit), c['k'], c['cut']),
                       f'crash in {hist[i][0]} ' + ('inside a write' if c['cut'] else 'between operations'), nontrivial=True)
             if not c['crashed']:
-                self.diverge('crash point not reached', {'history': hist, 'crash': [i, c['k'], c['cut']]}, c['completed'], None)
+                self.diverge('crash point not reached', {'history': wit, 'crash': [i, c['k'], c['cut']]}, c['completed'], None)
             for what, sig in oracle_crash(r['views'][i], r['views'][i + 1], c['view']):
                 op = r['traces'][i]
                 flat = [o for call in op for o in call]
                 at = flat[c['k']] if c['k'] < len(flat) else None
                 self.violate(f'process death in {hist[i][0]} after {c["k"]} micro-operations'
                              + (' (half-way through the write)' if c['cut'] else '') + f': {what}',
-                             {'history': hist[: i + 1], 'crash': [i, c['k'], c['cut']]}, sig,
+                             {'history': wit, 'crash': [i, c['k'], c['cut']]}, sig,
                              {'next_operation': at})
+        if 'long_lived' in r:
+            plain = [v for v, o in zip(r['views'][1:], r['outcomes']) if o != 'crashed']
+            if not any(e[0] == 'crash' for e in hist):
+                for n, (fresh, cached) in enumerate(zip([r['views'][0]] + plain, r['long_lived'])):
+                    self.case(('long-lived', repr(hist[:n])), 'long-lived reader (caches never cleared)', nontrivial=n > 0)
+                    if fresh != cached:
+                        diff = [f[:4] for f in cached if f not in fresh] or [f[:4] for f in fresh if f not in cached]
+                        self.violate(f'a long-lived reader (cached tags / states) sees {diff[:2]} differently from a fresh reader',
+                                     {'history': hist[:n], 'crash': None, 'reader': 'long-lived'}, 'long-lived-reader-stale')
 
-    def _run_batch(self, histories, pool):
-        jobs = [(h, True) for h in histories]
+    def _run_batch(self, histories, pool, mode=True):
+        jobs = [(h, mode) for h in histories]
         results = list(pool.imap(_worker, jobs, chunksize=4)) if pool else [_worker(j) for j in jobs]
         for r in results:
             if 'machinery' in r:
@@ -832,7 +1042,7 @@ class C05(fw.Check):
             return sorted(facts, key=repr)
 
         for hist in histories:
-            hist = [s if s[0] == 'train' else s[:4] + ['file'] for s in hist]
+            hist = [s if s[0] == 'train' else s[:4] + ['file'] for s in hist if s[0] != 'crash']
             registry = volatile.Registry()
             directory = asset.Directory(registry)
             before = view(directory)
@@ -876,22 +1086,28 @@ class C05(fw.Check):
                           f'Project.put checks the project key {"first" if impl[1] else "only for listed projects"} '
                           f'(model variant Impl.mk {str(impl[0]).lower()} {str(impl[1]).lower()})')
         histories = self._corpus() + [self._random_history() for _ in range(self.n(60, 700))]
-        if not self.quick:
-            histories += list(self._exhaustive(4))
+        nlong = len(self._corpus()) + self.n(30, 200)  # these are also replayed by a long-lived reader
+        recovery = self._recovery_corpus() + [self._random_recovery_history() for _ in range(self.n(40, 500))]
+        exhaustive = [] if self.quick else list(self._exhaustive(4))
         ctx = multiprocessing.get_context('fork')
-        ncrash = 0
+        ncrash = nkilled = 0
         with ctx.Pool(min(14, os.cpu_count() or 2)) as pool:
-            for start in range(0, len(histories), 400):
-                results = self._run_batch(histories[start:start + 400], pool)
-                for r in results:
-                    self._judge(r)
-                    ncrash += len(r['crashes'])
-                self._compare(results, impl)
-        self.extra['histories'] = len(histories)
+            for batch, mode in ((histories[:nlong], 'long-lived'), (histories[nlong:], True), (recovery, True),
+                                (exhaustive, True)):
+                for start in range(0, len(batch), 400):
+                    results = self._run_batch(batch[start:start + 400], pool, mode)
+                    for r in results:
+                        self._judge(r)
+                        ncrash += len(r['crashes'])
+                        nkilled += len(r['killed'])
+                    self._compare(results, impl)
+        self.extra['histories'] = len(histories) + len(recovery) + len(exhaustive)
+        self.extra['crash_recovery_histories'] = len(recovery)
         self.extra['crashed_runs'] = ncrash
+        self.extra['process_deaths_inside_histories'] = nkilled
         self._volatile(self._corpus() + [self._random_history() for _ in range(self.n(20, 200))])
         if not self.quick:
-            self._fresh_process(histories[:7] + histories[7:7 + 30])
+            self._fresh_process(histories[:7] + histories[7:7 + 30] + recovery[:20])
 
     def _fresh_process(self, histories):
         """The reader in a fresh interpreter (no cache can survive): same view as the in-process fresh reader."""
@@ -905,8 +1121,13 @@ class C05(fw.Check):
             live = os.path.join(root, f'h{n}')
             os.makedirs(live)
             sid = 0
-            for step in hist:
-                _, _, sid, _ = _do_step(live, step, sid)
+            for item in hist:
+                if item[0] == 'crash':
+                    step, where = item[1], item[2]
+                    k = where if isinstance(where, int) else int(where * 6)
+                    _, _, sid, _ = _do_step(live, step, sid, crash_at=k, cut=False)
+                else:
+                    _, _, sid, _ = _do_step(live, item, sid)
             jobs.append((live, _read_view(live)))
         code = ('import sys, json, logging; logging.disable(logging.CRITICAL); sys.path.insert(0, sys.argv[1]);'
                 'sys.path.insert(0, sys.argv[2]); from props import c05;'
@@ -930,7 +1151,9 @@ class C05(fw.Check):
         for hist in seeds:
             variants = [hist[:n] for n in range(1, len(hist) + 1)]
             for i, s in enumerate(hist):
-                if s[0] == 'publish':
+                if s[0] == 'crash':
+                    variants.append(hist[:i] + hist[i + 1:])
+                elif s[0] == 'publish':
                     variants.append(hist[:i] + [s[:4] + ['dir' if s[4] == 'file' else 'file']] + hist[i + 1:])
                 else:
                     variants.append(hist[:i] + [s[:4] + [s[4] + [[9, 9, 9]]]] + hist[i + 1:])
@@ -943,27 +1166,33 @@ class C05(fw.Check):
         self.notes.append(f'failing-input search ({reason}): {tried} neighbouring histories x all crash points')
 
     def replay_finding(self, entry):
+        """Re-run a witness; for a listed entry only a violation of *its* root cause (signature) counts as its return —
+        any other violation on the same input is found and reported by the regular run (the witnesses are in the corpus)."""
         w = entry['witness']
         if 'history' not in w:
             return None
-        hist = w['history']
-        if w.get('registry') == 'volatile':
-            before = len(self.violations)
-            self._volatile([hist])
-            found = self.violations[before:]
-            del self.violations[before:]
-            return found[0] if found else None
-        crash = w.get('crash')
-        r = run_history(hist, crash_points=crash is not None, only=crash)
-        i = len(hist) - 1
-        if crash is None:
-            for what, sig in oracle_step(hist[i], r['outcomes'][i], r['views'][i], r['views'][i + 1]):
-                return fw.Violation(what, w, sig)
-            return None
-        for c in r['crashes']:
-            for what, sig in oracle_crash(r['views'][c['i']], r['views'][c['i'] + 1], c['view']):
-                return fw.Violation(what, w, sig)
+        want = entry.get('signature')
+        found = self._replay(w)
+        for v in found:
+            if want is None or v.signature == want:
+                return v
         return None
+
+    def _replay(self, w) -> list:
+        hist = w['history']
+        before = len(self.violations)
+        if w.get('registry') == 'volatile':
+            self._volatile([hist])
+        elif w.get('reader') == 'long-lived':
+            r = run_history(hist, crash_points=False)
+            r['long_lived'] = run_long_lived(hist)
+            self._judge(r)
+        else:
+            crash = w.get('crash')
+            self._judge(run_history(hist, crash_points=crash is not None, only=crash))
+        found = self.violations[before:]
+        del self.violations[before:]
+        return found
 
 
 if __name__ == '__main__':
